@@ -84,11 +84,11 @@ u8 __CPROVER_uninterpreted_mul8(u8, u8);
 u16 __CPROVER_uninterpreted_mul16(u16, u16);
 u32 __CPROVER_uninterpreted_mul32(u32, u32);
 u64 __CPROVER_uninterpreted_mul64(u64, u64);
-#define LL_COMM(f, a, b) ((a) <= (b) ? f((a), (b)) : f((b), (a)))
-#define MUL_u8(a, b) LL_COMM(__CPROVER_uninterpreted_mul8, (u8)(a), (u8)(b))
-#define MUL_u16(a, b) LL_COMM(__CPROVER_uninterpreted_mul16, (u16)(a), (u16)(b))
-#define MUL_u32(a, b) LL_COMM(__CPROVER_uninterpreted_mul32, (u32)(a), (u32)(b))
-#define MUL_u64(a, b) LL_COMM(__CPROVER_uninterpreted_mul64, (u64)(a), (u64)(b))
+/* commutative by construction: arguments ordered by bit pattern (inline functions, so operands are evaluated once) */
+static inline u8 MUL_u8(u8 a, u8 b) { return a <= b ? __CPROVER_uninterpreted_mul8(a, b) : __CPROVER_uninterpreted_mul8(b, a); }
+static inline u16 MUL_u16(u16 a, u16 b) { return a <= b ? __CPROVER_uninterpreted_mul16(a, b) : __CPROVER_uninterpreted_mul16(b, a); }
+static inline u32 MUL_u32(u32 a, u32 b) { return a <= b ? __CPROVER_uninterpreted_mul32(a, b) : __CPROVER_uninterpreted_mul32(b, a); }
+static inline u64 MUL_u64(u64 a, u64 b) { return a <= b ? __CPROVER_uninterpreted_mul64(a, b) : __CPROVER_uninterpreted_mul64(b, a); }
 #define LL_UFDIV(W) \
   u##W __CPROVER_uninterpreted_udiv##W(u##W, u##W); u##W __CPROVER_uninterpreted_sdiv##W(u##W, u##W); \
   u##W __CPROVER_uninterpreted_urem##W(u##W, u##W); u##W __CPROVER_uninterpreted_srem##W(u##W, u##W);
@@ -110,18 +110,21 @@ LL_UFDIV(8) LL_UFDIV(16) LL_UFDIV(32) LL_UFDIV(64)
 #define SREM_u16(a, b) (LL_DIVOK_S(16, a, b) ? __CPROVER_uninterpreted_srem16((a), (b)) : nondet_u16())
 #define SREM_u32(a, b) (LL_DIVOK_S(32, a, b) ? __CPROVER_uninterpreted_srem32((a), (b)) : nondet_u32())
 #define SREM_u64(a, b) (LL_DIVOK_S(64, a, b) ? __CPROVER_uninterpreted_srem64((a), (b)) : nondet_u64())
+/* uninterpreted floating-point symbols see NaNs canonicalised, so that they are insensitive to the payload */
+#define LL_CANON32(f) ((f) != (f) ? (u32)0x7fc00000u : F2U32(f))
+#define LL_CANON64(f) ((f) != (f) ? (u64)0x7ff8000000000000ull : F2U64(f))
 u32 __CPROVER_uninterpreted_fmul32(u32, u32); u64 __CPROVER_uninterpreted_fmul64(u64, u64);
 u32 __CPROVER_uninterpreted_fdiv32(u32, u32); u64 __CPROVER_uninterpreted_fdiv64(u64, u64);
 u32 __CPROVER_uninterpreted_fma32(u32, u32, u32); u64 __CPROVER_uninterpreted_fma64(u64, u64, u64);
 u32 __CPROVER_uninterpreted_fsqrt32(u32); u64 __CPROVER_uninterpreted_fsqrt64(u64);
-#define FMUL_f32(a, b) U2F32(LL_COMM(__CPROVER_uninterpreted_fmul32, F2U32(a), F2U32(b)))
-#define FMUL_f64(a, b) U2F64(LL_COMM(__CPROVER_uninterpreted_fmul64, F2U64(a), F2U64(b)))
-#define FDIV_f32(a, b) U2F32(__CPROVER_uninterpreted_fdiv32(F2U32(a), F2U32(b)))
-#define FDIV_f64(a, b) U2F64(__CPROVER_uninterpreted_fdiv64(F2U64(a), F2U64(b)))
-#define LL_FMA_f32(a, b, c) U2F32(F2U32(a) <= F2U32(b) ? __CPROVER_uninterpreted_fma32(F2U32(a), F2U32(b), F2U32(c)) : __CPROVER_uninterpreted_fma32(F2U32(b), F2U32(a), F2U32(c)))
-#define LL_FMA_f64(a, b, c) U2F64(F2U64(a) <= F2U64(b) ? __CPROVER_uninterpreted_fma64(F2U64(a), F2U64(b), F2U64(c)) : __CPROVER_uninterpreted_fma64(F2U64(b), F2U64(a), F2U64(c)))
-#define LL_SQRT_f32(a) U2F32(__CPROVER_uninterpreted_fsqrt32(F2U32(a)))
-#define LL_SQRT_f64(a) U2F64(__CPROVER_uninterpreted_fsqrt64(F2U64(a)))
+static inline f32 FMUL_f32(f32 a, f32 b) { u32 x = LL_CANON32(a), y = LL_CANON32(b); return U2F32(x <= y ? __CPROVER_uninterpreted_fmul32(x, y) : __CPROVER_uninterpreted_fmul32(y, x)); }
+static inline f64 FMUL_f64(f64 a, f64 b) { u64 x = LL_CANON64(a), y = LL_CANON64(b); return U2F64(x <= y ? __CPROVER_uninterpreted_fmul64(x, y) : __CPROVER_uninterpreted_fmul64(y, x)); }
+static inline f32 FDIV_f32(f32 a, f32 b) { return U2F32(__CPROVER_uninterpreted_fdiv32(LL_CANON32(a), LL_CANON32(b))); }
+static inline f64 FDIV_f64(f64 a, f64 b) { return U2F64(__CPROVER_uninterpreted_fdiv64(LL_CANON64(a), LL_CANON64(b))); }
+static inline f32 LL_FMA_f32(f32 a, f32 b, f32 c) { u32 x = LL_CANON32(a), y = LL_CANON32(b), z = LL_CANON32(c); return U2F32(x <= y ? __CPROVER_uninterpreted_fma32(x, y, z) : __CPROVER_uninterpreted_fma32(y, x, z)); }
+static inline f64 LL_FMA_f64(f64 a, f64 b, f64 c) { u64 x = LL_CANON64(a), y = LL_CANON64(b), z = LL_CANON64(c); return U2F64(x <= y ? __CPROVER_uninterpreted_fma64(x, y, z) : __CPROVER_uninterpreted_fma64(y, x, z)); }
+static inline f32 LL_SQRT_f32(f32 a) { return U2F32(__CPROVER_uninterpreted_fsqrt32(LL_CANON32(a))); }
+static inline f64 LL_SQRT_f64(f64 a) { return U2F64(__CPROVER_uninterpreted_fsqrt64(LL_CANON64(a))); }
 #else
 #define MUL_u8(a, b) ((u8)((u32)(a) * (u32)(b)))
 #define MUL_u16(a, b) ((u16)((u32)(a) * (u32)(b)))
@@ -162,10 +165,10 @@ f32 fmaf(f32, f32, f32); f64 fma(f64, f64, f64); f32 sqrtf(f32); f64 sqrt(f64);
 #ifdef LL_MODE_UF_ADD
 u32 __CPROVER_uninterpreted_fadd32(u32, u32); u64 __CPROVER_uninterpreted_fadd64(u64, u64);
 u32 __CPROVER_uninterpreted_fsub32(u32, u32); u64 __CPROVER_uninterpreted_fsub64(u64, u64);
-#define FADD_f32(a, b) U2F32(LL_COMM(__CPROVER_uninterpreted_fadd32, F2U32(a), F2U32(b)))
-#define FADD_f64(a, b) U2F64(LL_COMM(__CPROVER_uninterpreted_fadd64, F2U64(a), F2U64(b)))
-#define FSUB_f32(a, b) U2F32(__CPROVER_uninterpreted_fsub32(F2U32(a), F2U32(b)))
-#define FSUB_f64(a, b) U2F64(__CPROVER_uninterpreted_fsub64(F2U64(a), F2U64(b)))
+static inline f32 FADD_f32(f32 a, f32 b) { u32 x = LL_CANON32(a), y = LL_CANON32(b); return U2F32(x <= y ? __CPROVER_uninterpreted_fadd32(x, y) : __CPROVER_uninterpreted_fadd32(y, x)); }
+static inline f64 FADD_f64(f64 a, f64 b) { u64 x = LL_CANON64(a), y = LL_CANON64(b); return U2F64(x <= y ? __CPROVER_uninterpreted_fadd64(x, y) : __CPROVER_uninterpreted_fadd64(y, x)); }
+static inline f32 FSUB_f32(f32 a, f32 b) { return U2F32(__CPROVER_uninterpreted_fsub32(LL_CANON32(a), LL_CANON32(b))); }
+static inline f64 FSUB_f64(f64 a, f64 b) { return U2F64(__CPROVER_uninterpreted_fsub64(LL_CANON64(a), LL_CANON64(b))); }
 #else
 #define FADD_f32(a, b) ((f32)((a) + (b)))
 #define FADD_f64(a, b) ((f64)((a) + (b)))
@@ -226,6 +229,16 @@ f64 floor(f64); f64 ceil(f64); f64 trunc(f64); f64 round(f64); f64 nearbyint(f64
 #define ll_round_f64(a) round(a)
 #define ll_rint_f64(a) nearbyint(a)
 
+/* contracts (not bodies) are the only users of some library functions; the harness calls this so that the CPROVER
+ * library models are linked before the contract instrumentation runs */
+static inline void ll_use_libm(void) {
+  f32 a = 0; f64 b = 0;
+  a = floorf(a); a = ceilf(a); a = truncf(a); a = roundf(a); a = nearbyintf(a);
+  b = floor(b); b = ceil(b); b = trunc(b); b = round(b); b = nearbyint(b);
+#ifndef LL_MODE_UF
+  a = fmaf(a, a, a); a = sqrtf(a); b = fma(b, b, b); b = sqrt(b);
+#endif
+}
 void *memcpy(void *, const void *, unsigned long);
 void *memmove(void *, const void *, unsigned long);
 void *memset(void *, int, unsigned long);
